@@ -62,6 +62,7 @@ class Arbiter:
         self.worker_age = 0
         self.reexec_pid = 0
         self.master_pid = 0
+        self.stopping = False
         self.master_name = "Master"
 
         cwd = util.getcwd()
@@ -378,6 +379,7 @@ class Arbiter:
         :attr graceful: boolean, If True (the default) workers will be
         killed gracefully  (ie. trying to wait for the current connection)
         """
+        self.stopping = True
         unlink = (
             self.reexec_pid == self.master_pid == 0
             and not self.systemd
@@ -533,10 +535,12 @@ class Arbiter:
                     exitcode = status >> 8
                     if exitcode != 0:
                         self.log.error('Worker (pid:%s) exited with code %s', wpid, exitcode)
-                    if exitcode == self.WORKER_BOOT_ERROR:
+                    # once the server is stopping there is nothing left to
+                    # halt: raising here would escape from halt() itself
+                    if exitcode == self.WORKER_BOOT_ERROR and not self.stopping:
                         reason = "Worker failed to boot."
                         raise HaltServer(reason, self.WORKER_BOOT_ERROR)
-                    if exitcode == self.APP_LOAD_ERROR:
+                    if exitcode == self.APP_LOAD_ERROR and not self.stopping:
                         reason = "App failed to load."
                         raise HaltServer(reason, self.APP_LOAD_ERROR)
 
